@@ -95,6 +95,22 @@ CLAIMED = {
             "Trusted: TLC, World.table() projection and probe leaves in vf/props/c08.py. Exceptions from keypress/mouse_event/render with empty "
             "containers are DIVERGENCE (rendering is C01's subject).",
             "DESIGN.md §4 C08"),
+    "C19": ("TLA+ layout relations PartitionOps.tla (ColumnWidthsOK, PileRowsOK, PadOK/FillOK/OverlayOK, GridOK: one operator per sentence, plus "
+            "reference allocators); consistency model Partition.tla model-checked by TLC (references satisfy every relation on all bounded "
+            "configurations, seven deliberately wrong allocators refuted); TLC trace validation (PartitionTrace.tla) of configurations driven "
+            "through the real Columns, Pile, Padding, Filler, Overlay and GridFlow around size-recording probe children",
+            "TLC shows the contract satisfiable for every option list of <= 3 columns/rows (given/pack/weight, amounts 0..4, dividechars 0..2, "
+            "min_width 1..2, every focus, available 0..12) and every align/size kind, percentage, minimum and margin 0..2, and judges every recorded "
+            "answer of Columns.column_widths/get_column_sizes/render, Pile.get_item_rows/get_rows_sizes/render, Padding.padding_values, "
+            "Filler.filler_values, Overlay.calculate_padding_filler/top_w_size and the painted GridFlow canvas (exhaustive small ranges, seeded "
+            "random beyond: up to 6 columns, rational weights, sizes to 80) for non-negative integers, own-size-or-nothing, focus visibility, "
+            "never-exceed with dividers, exact fill, proportional shares within one, requested-or-remaining child size, margins+child = available, "
+            "alignment split within rounding, no negative dimension, and GridFlow cell width / reading order.",
+            "Trusted: TLC, the probe widgets and rigs in vf/props/c19.py, the GridFlow canvas reader. TLC's role is enumeration and per-event "
+            "contract evaluation (little temporal structure). Weaker readings judged, stronger ones (literal 'remaining space', fill with zero-sized "
+            "columns, Pile never exceeds, cell width when narrower than a cell) evaluated by TLC as DIVERGENCE. Known finding: weighted shares "
+            "drift beyond one cell with >= 4 weighted columns/rows.",
+            "DESIGN.md §4 C19"),
 }
 
 NOT_APPLICABLE = {}
